@@ -199,6 +199,9 @@ def run(chk, tier):
     c15.glv(chk, prog)
     c15.probes(chk, prog)
     vcp_lookup(chk, prog)
+    # "never ... panics": the estimate computed at the top of every iteration divides by the timing window's length (C19)
+    from rules import c19
+    c19.window(chk, prog)
 
 
 def first_delivery(chk, prog, fn, lp, names, site, tx):
